@@ -159,6 +159,7 @@ type Machine struct {
 	overrides   map[string]Value
 	curFrame    *frame // innermost frame (tracing only)
 	preemptBound, preemptions int // context bound: at most preemptBound switches away from a runnable thread (0 = unbounded)
+	daemonsFirst bool // see switchAway
 	coarse      bool // preempt only at vsym_Event/vsym_Yield and when a thread blocks
 	events      []string
 	sideMutex   map[*Value]*mutexState
@@ -541,6 +542,7 @@ func (m *Machine) resetRun(item WorkItem) {
 	m.tokens, m.timers, m.afterFuncs, m.kvTokens, m.tokenByKey = nil, nil, nil, 0, nil
 	m.threads, m.cur, m.explore, m.killing = nil, nil, false, false
 	m.coarse = false
+	m.daemonsFirst = false
 	m.preemptBound, m.preemptions = 0, 0
 	m.finalAb, m.finalPan = nil, nil
 	m.freshID = 0
